@@ -138,6 +138,9 @@ type Server struct {
 	MaxInflight   int
 	InflightWatch int
 	HoldFirstList chan struct{} // if non-nil the first list waits for this channel (C08)
+	Reuse         bool // one live object per key, mutated in place and re-sent by pointer
+	live          map[string]runtime.Object
+	FailFirstKind string // how the held first list fails (a list-script kind; "" = plain error)
 	FailFirstList bool
 
 	// Foreign: a foreign-typed object (other kind) is mixed into lists/events
@@ -318,13 +321,16 @@ func (s *Server) List(ctx context.Context, opts metav1.ListOptions) (runtime.Obj
 			call.Outcome = "cancelled"
 			return nil, ctx.Err()
 		}
-		if s.FailFirstList {
-			call.Outcome = "error"
-			return nil, ErrInjectedList
-		}
 	}
 
 	script := s.F.ListScript[call.N]
+	if call.N == 1 && s.HoldFirstList != nil && s.FailFirstList {
+		// the held first list fails, in whichever way was chosen at release
+		script = s.FailFirstKind
+		if script == "" {
+			script = "error"
+		}
+	}
 	if script == "" && s.F.Roll("list-hang") {
 		script = "hang"
 	}
@@ -386,6 +392,11 @@ func (s *Server) List(ctx context.Context, opts metav1.ListOptions) (runtime.Obj
 	case "noitems":
 		call.Outcome = "noitems"
 		return &noItemsList{ListMeta: metav1.ListMeta{ResourceVersion: rv}}, nil
+	case "status-object":
+		// what rest.Result.Get() yields when the server answers a list request
+		// with a Status: an object with ListMeta that is not a list
+		call.Outcome = "status-object"
+		return &metav1.Status{Status: "Failure", Reason: metav1.StatusReasonInternalError, Code: 500, Message: "injected: status instead of a list"}, nil
 	case "nil":
 		call.Outcome = "nil"
 		return nil, nil
@@ -397,7 +408,42 @@ func (s *Server) List(ctx context.Context, opts metav1.ListOptions) (runtime.Obj
 	if s.Typed {
 		return BuildTypedList(s.Kind, rv, snap), nil
 	}
+	if s.Reuse {
+		l := &metav1.List{ListMeta: metav1.ListMeta{ResourceVersion: rv}}
+		for _, o := range snap {
+			l.Items = append(l.Items, runtime.RawExtension{Object: s.object(o, false)})
+		}
+		return l, nil
+	}
 	return BuildList(s.Kind, rv, snap), nil
+}
+
+// object builds the API object of a frame or list element.  With Reuse the
+// server behaves like an in-memory store that keeps ONE live object per key,
+// changes it in place and hands out the same pointer again and again (only
+// used in runs where every write is drained before the next one, so that no
+// consumer still has an older state of the object in flight).
+func (s *Server) object(o Spec, deleted bool) runtime.Object {
+	if !s.Reuse {
+		return Build(s.Kind, o)
+	}
+	if s.live == nil {
+		s.live = map[string]runtime.Object{}
+	}
+	cur, ok := s.live[o.Key()]
+	if !ok {
+		cur = Build(s.Kind, o)
+		s.live[o.Key()] = cur
+	} else {
+		m := cur.(metav1.Object)
+		m.SetResourceVersion(o.RV)
+		m.SetLabels(copyMap(o.Labels))
+		detsim.Count("probe:server-object-mutated-in-place")
+	}
+	if deleted {
+		delete(s.live, o.Key())
+	}
+	return cur
 }
 
 type conn struct {
@@ -521,7 +567,7 @@ func (c *conn) send(ctx context.Context, ev watch.Event) bool {
 }
 
 func (c *conn) frame(e Entry) watch.Event {
-	return watch.Event{Type: e.Type, Object: Build(c.s.Kind, e.Obj)}
+	return watch.Event{Type: e.Type, Object: c.s.object(e.Obj, e.Type == watch.Deleted)}
 }
 
 func (c *conn) pump(ctx context.Context, gone bool) {
